@@ -35,3 +35,31 @@ claim("C30", "mc-text", "exploration",
       "exhaustive string x normalizer-chain enumeration with offset-map law oracle",
       "Every string of <=4 (thorough 5) symbols over a 14-symbol alphabet (case, combining, ligature, dotted I, sharp s, digraph, CJK, astral, control) x every normalizer and every Sequence of 2 (thorough 3): valid UTF-8, map length = normalized length, non-decreasing, in range, char-boundary at char-boundary positions.",
       "Lenient reading of 'every byte position' per DESIGN §2.4 (the in-tree tests pin identity byte maps).")
+claim("C04", "mc-graph", "exploration",
+      "exhaustive program x input-subset x output-set enumeration, differential oracle run(all) vs run(rest + partial_run(subset))",
+      "Every program of the grammar (incl. RandomUniform sources and If with captures) x optimisation on/off x every subset of the graph inputs x output sets: feeding partial_run's results plus the remaining inputs to run must reproduce the full run; no value returned by partial_run may depend on a non-deterministic operator; a random source must still vary between runs after optimisation.",
+      "Two graph inputs, so 4 subsets per program; outputs downstream of a random source are excluded from equality.")
+claim("C24", "mc-graph", "exploration",
+      "exhaustive template-hole enumeration of If/Loop programs against an inlining reference evaluator",
+      "Programs with If, Loop, two Ifs sharing a capture, If-in-Loop and Loop-in-If; holes (bodies over captured parent values, capture reuse after the op / as graph output, constant and run-time conditions, trip counts 0..3, four loop-condition modes, carried values, scan outputs) are filled exhaustively; each program runs with optimisation on/off and owned/borrowed input; control-flow results and every parent value requested afterwards must equal the inlined evaluation.",
+      "Scan outputs of zero-iteration loops are not asserted (rten reports an output-count error there); one nesting level.")
+claim("C25", "mc-graph", "model_checking",
+      "explicit exploration of run histories on one live model with a naive-evaluator oracle",
+      "For every program (<=2 ops, 11 kinds) every history of <=2 (thorough 3) runs over {input fill} x {borrowed, owned} x {output set} executes on a freshly loaded model; after every run results equal the naive evaluator (so equal requests agree at every history position), borrowed input buffers are unchanged, and a final probe returns the original constants.",
+      "The only mutable model state is the cached plan; histories are not de-duplicated.")
+claim("C26", "mc-graph", "fault_enumeration",
+      "exhaustive enumeration of malformed run requests with a defect-predicate oracle",
+      "4 models (declared input metadata fixed/symbolic/dtype-only/none) x every input list (<=2 entries over valid, constant, intermediate, operator, unknown and i32::MAX ids with repetition x 8 tensor variants) x every output list x run/run_n/partial_run/run_one: a request with a listed defect must return Err, nothing may panic, defect-free well-formed requests must succeed. Requests are issued in sequence on one model, so plan-cache history effects are included.",
+      "Constants supplied as inputs / requested as outputs are treated as legal.")
+claim("C31", "mc-generate", "exploration",
+      "exhaustive logit-vector x filter-parameter x ISA enumeration with total-order reference",
+      "Every vector of length <=5 (thorough 6) over {0,1,-1,0.5,-inf,+inf,NaN,...}, structured vectors of every length up to 48/80, all K in 0..=n+2, nine P values, three TopP modes, dense and sparse ids, every chain of <=2 (and 3) filters, on forced generic/AVX2/AVX-512 dispatch: TopK = min(K,n) largest in descending total order, TopP = shortest prefix reaching the threshold and never empty, chains = composition, no panics.",
+      "TopP::new is judged with the normalisation the constructed filter implements (doc/code default mismatch is an observation); -0.0 vs +0.0 treated as a tie.")
+claim("C32", "mc-generate", "model_checking",
+      "explicit-state BFS over generator call histories against a logging mock model",
+      "Every history of <=7 (thorough 8) calls over {with_prompt, append_prompt x2, next, process_prompt, clear_prompt} x 13 mock model configurations (no KV cache, decoder and encoder-decoder KV cache, 3-D/4-D caches, capacities): each pending token reaches the model exactly once at contiguous positions, cache in = cache last out, prev_tokens equals everything submitted or produced, in order.",
+      "Mock model built from public APIs; batch size 1; failing model runs not explored.")
+claim("C33", "mc-generate", "exploration",
+      "exhaustive candidate-set x scripted-uniform-draw enumeration (randomness owned through a hook)",
+      "Every candidate set of size <=5 (thorough 6) over 8-10 score values incl. -inf and ties, dense and sparse ids, long sets, x 31 (87) scripted uniform draws through the force_target hook, on three ISAs: ArgMax returns a maximal id, Multinomial returns an id of the set with non-zero probability; seeds 0..=255 run twice give identical sequences.",
+      "Sets where softmax is undefined (all -inf, +inf, NaN) are run but the probability clause is not judged.")
